@@ -71,7 +71,7 @@ Section Codec.
   Variable Msg : Type.
   Variable dec : list Z -> option Msg.
   Variable grow : Z -> Z.
-  Hypothesis Hgrow : forall c, c < grow c.
+  Hypothesis Hgrow : forall c, 0 < c -> c < grow c.
 
   (** ** Unmarshal over any chunking, any terminal condition, any bytes *)
   Theorem Unmarshal_spec cs t fuel :
